@@ -31,6 +31,8 @@ let () = Kinds_engine.register reg
 let () = Kinds_adapters.register reg
 
 let () =
+  if Array.length Sys.argv > 3 && Sys.argv.(1) = "-coqgen" then (Coqprint.emit_coq Sys.argv.(2) (int_of_string Sys.argv.(3)); exit 0);
+  if Array.length Sys.argv > 3 && Sys.argv.(1) = "-digests" then (Coqprint.emit_digests Sys.argv.(2) (int_of_string Sys.argv.(3)); exit 0);
   let emit = Array.length Sys.argv > 2 && Sys.argv.(2) = "-emit" in
   let ic = if Array.length Sys.argv > 1 && Sys.argv.(1) <> "-" then open_in Sys.argv.(1) else stdin in
   let cases = ref 0 and diffs = ref 0 and bads = ref 0 and lineno = ref 0 in
